@@ -154,3 +154,108 @@ func DrainSettle(p core.Provider, max int, consumers int, deadline, settle time.
 	}
 	return res, obsErr
 }
+
+// DrainHeld is a single consumer that, like `hold` instances in lock-step, acquires `hold` ammo before it looks at any
+// of them: observe is called on each of the held items in acquisition order, then all are released. With hold = 1 it
+// equals Drain with one consumer. A provider that hands out one object twice (preloaded ammo on a later pass) is thus
+// seen while two deliveries of it are alive.
+func DrainHeld(p core.Provider, max, hold int, deadline time.Duration, observe func(core.Ammo) error) (res Result, err error) {
+	if hold < 1 {
+		hold = 1
+	}
+	ctx, cancel := context.WithCancel(context.Background())
+	defer cancel()
+	runDone := make(chan error, 1)
+	go func() {
+		defer func() {
+			if r := recover(); r != nil {
+				runDone <- fmt.Errorf("panic in provider.Run: %v", r)
+			}
+		}()
+		runDone <- p.Run(ctx, core.ProviderDeps{Log: pand.NopLog(), PoolID: "verif"})
+	}()
+	var obsErr error
+	consDone := make(chan struct{})
+	var mu sync.Mutex
+	go func() {
+		defer close(consDone)
+		defer func() {
+			if r := recover(); r != nil {
+				mu.Lock()
+				obsErr = fmt.Errorf("panic in Acquire/Release/observe: %v", r)
+				mu.Unlock()
+			}
+		}()
+		taken := 0
+		for taken < max {
+			var held []core.Ammo
+			for len(held) < hold && taken+len(held) < max {
+				a, ok := p.Acquire()
+				if !ok {
+					mu.Lock()
+					res.EndSeen = true
+					mu.Unlock()
+					break
+				}
+				held = append(held, a)
+			}
+			for _, a := range held {
+				mu.Lock()
+				res.Items = append(res.Items, a)
+				mu.Unlock()
+				if observe != nil {
+					if e := observe(a); e != nil {
+						mu.Lock()
+						if obsErr == nil {
+							obsErr = e
+						}
+						mu.Unlock()
+					}
+				}
+			}
+			for _, a := range held {
+				p.Release(a)
+			}
+			taken += len(held)
+			mu.Lock()
+			stop := res.EndSeen || obsErr != nil
+			mu.Unlock()
+			if stop {
+				return
+			}
+		}
+	}()
+	select {
+	case <-consDone:
+	case <-time.After(deadline):
+		res.Hung = "consumer still blocked in Acquire"
+		cancel()
+		select {
+		case <-consDone:
+		case <-time.After(deadline):
+			return res, fmt.Errorf("consumer blocked in Acquire for %v, also after the context was cancelled", 2*deadline)
+		}
+	}
+	mu.Lock()
+	full := len(res.Items) >= max
+	mu.Unlock()
+	if full {
+		res.Cancelled = true
+		cancel()
+	}
+	select {
+	case res.RunErr = <-runDone:
+		res.RunDone = true
+	case <-time.After(deadline):
+		cancel()
+		select {
+		case res.RunErr = <-runDone:
+			res.Hung = "provider.Run returned only after cancel"
+		case <-time.After(deadline):
+			return res, fmt.Errorf("provider.Run did not return within %v (also after cancel)", 2*deadline)
+		}
+	}
+	mu.Lock()
+	defer mu.Unlock()
+	return res, obsErr
+}
